@@ -27,6 +27,9 @@ type C04Case struct {
 	// then read by Parser.Parse on that instance and must still get its value
 	Prev      [][]byte `json:"prev,omitempty"`
 	PrevWrite []bool   `json:"prev_write,omitempty"`
+	// Cuts: the text reaches the parser through ParseReader over a reader that
+	// returns exactly these chunks
+	Cuts []int `json:"cuts,omitempty"`
 }
 
 // texts that leave a parser in every kind of intermediate or final state
@@ -177,6 +180,12 @@ func checkC04(ci any, info *CaseInfo) string {
 		}
 		rec.Reset()
 		o = guard(func() error { return p.Parse(c.Text) })
+	} else if len(c.Cuts) > 0 {
+		info.Class("chunked")
+		o = guard(func() error {
+			_, err := codecs["json"].ParseReader(&chunkReader{chunks: cloneChunks(gen.Split(c.Text, c.Cuts))}, rec)
+			return err
+		})
 	} else {
 		o = guard(func() error { return codecs["json"].Parse(c.Text, rec) })
 	}
@@ -320,7 +329,7 @@ func mutateTokens(t *rapid.T, toks []ref.JSONTok) ([]ref.JSONTok, string) {
 func init() {
 	register(&Property{
 		ID:   "C04",
-		Rule: "rapid draws a value tree and renders it with the harness' grammar-based RFC 8259 text generator (whitespace SP/HT/LF/CR anywhere allowed, every escape spelling incl. \\uXXXX in both hex cases, surrogate pairs, lone surrogates, raw multi-byte UTF-8 after escapes, number literals with sign/fraction/exponent and 64-bit boundary integers, out-of-range literals); 1 in 4 of the valid texts is read by Parser.Parse on an instance that handled 1..2 other texts first (complete, invalid, or written and abandoned midway); 1 in 4 cases breaks the token structure (drop/dup/replace/swap/insert a structural token, non-string key); oracle = encoding/json (Token+UseNumber) with the statement's number rule; non-trivial = text has an escape, a multi-byte rune, a container or a number literal longer than 2 bytes (mutations: the reference rejects the text and it is not a value stream); distinct by text hash",
+		Rule: "rapid draws a value tree and renders it with the harness' grammar-based RFC 8259 text generator (whitespace SP/HT/LF/CR anywhere allowed, every escape spelling incl. \\uXXXX in both hex cases, surrogate pairs, lone surrogates, raw multi-byte UTF-8 after escapes, number literals with sign/fraction/exponent and 64-bit boundary integers, out-of-range literals); 1 in 4 of the valid texts arrives through ParseReader in chunks (cuts after whitespace bytes, into tokens, at random); 1 in 4 of the others is read by Parser.Parse on an instance that handled 1..2 other texts first (complete, invalid, or written and abandoned midway); 1 in 4 cases breaks the token structure (drop/dup/replace/swap/insert a structural token, non-string key); oracle = encoding/json (Token+UseNumber) with the statement's number rule; non-trivial = text has an escape, a multi-byte rune, a container or a number literal longer than 2 bytes (mutations: the reference rejects the text and it is not a value stream); distinct by text hash",
 		New:  func() any { return &C04Case{} },
 		Draw: func(t *rapid.T) any {
 			v := gen.Value(t, gen.ValueCfg{IntRange: "json", ValidUTF8: true, Finite: true, Deep: true})
@@ -332,8 +341,23 @@ func init() {
 				text, _ := ref.JoinJSON(toks)
 				return &C04Case{Text: text, Mutated: true, Note: note}
 			}
-			text, _ := ref.JoinJSON(e.Toks)
+			text, spans := ref.JoinJSON(e.Toks)
 			c := &C04Case{Text: text}
+			if len(text) >= 2 && rapid.IntRange(0, 3).Draw(t, "chunked") == 0 {
+				// cuts aimed at the gaps between tokens (whitespace) as well as
+				// into tokens and at random
+				if rapid.Bool().Draw(t, "wscuts") {
+					for i := 1; i < len(text); i++ {
+						if (text[i-1] == ' ' || text[i-1] == '\t' || text[i-1] == '\n' || text[i-1] == '\r') && rapid.IntRange(0, 2).Draw(t, "wscut") == 0 {
+							c.Cuts = append(c.Cuts, i)
+						}
+					}
+				}
+				if len(c.Cuts) == 0 {
+					c.Cuts = gen.Cuts(t, len(text), spans)
+				}
+				return c
+			}
 			if rapid.IntRange(0, 3).Draw(t, "reuse") == 0 {
 				for i, n := 0, rapid.IntRange(1, 2).Draw(t, "nprev"); i < n; i++ {
 					c.Prev = append(c.Prev, []byte(rapid.SampledFrom(c04PrevTexts).Draw(t, "prev")))
